@@ -35,7 +35,11 @@ BASES = {
     "h22": dict(sizes=[2, 2], E=[0, 1, 3, 7], hermitian=True),
     "n21": dict(sizes=[2, 1], E=[0, 1, 3], hermitian=False),
     "n12": dict(sizes=[1, 2], E=[0, 1, 3], hermitian=False),
+    "h31": dict(sizes=[3, 1], E=[0, 1, 3, 7], hermitian=True),
+    "h13": dict(sizes=[1, 3], E=[7, 0, 1, 3], hermitian=True),
+    "n31": dict(sizes=[3, 1], E=[0, 1, 3, 7], hermitian=False),
 }
+MASK_FORMS = ["int", "int8", "uint8", "int64-fortran", "bool-fortran", "int-readonly", "int-strided", "bare"]
 FORMATS = ["list", "dict-tuples", "dict-monomials", "sympy-symbols", "nested-blocks", "scalar-series", "block-series"]
 VTYPES = ["dense", "csr", "coo", "csc", "sympy"]
 VTYPES_EXTRA = ["c64", "fortran", "readonly", "strided", "dia", "lil", "bsr", "csr_matrix", "coo_unsorted_dup", "immutable"]
@@ -120,6 +124,16 @@ def cases(tier, seed):
         for blocks_ in ([0], [1], [0, 1]):
             for form in ("tuple", "set", "ndarray", "range", "iter", "generator", "map", "dict-keys", "reversed"):
                 out.append(dict(kind="fdforms", base=b, blocks=blocks_, form=form, seed=seed))
+    # elimination masks of a selectively diagonalised block given as 0/1 arrays of any integer dtype / memory layout
+    # (reference: the same mask as a C-contiguous bool array); every symmetric non-empty mask of a 3-level block,
+    # plus one-sided masks in non-Hermitian mode
+    for b in ("h3", "h31", "h13", "n31"):
+        nmask = 7 if BASES[b]["hermitian"] else 13
+        for m_ in range(nmask):
+            for form in MASK_FORMS:
+                if form == "bare" and len(BASES[b]["sizes"]) > 1:
+                    continue
+                out.append(dict(kind="fdmasks", base=b, mask=m_, form=form, seed=seed))
     for N in (12, 24, 40):
         for nsub in (2, 3):
             for herm in (True, False):
@@ -686,6 +700,79 @@ def run_fdforms(case):
                     if dx.shape != dy.shape or np.abs(dx - dy).max(initial=0) > 1e-9 * max(1.0, np.abs(dx).max(initial=0)):
                         V.append(f"{name}[{i},{j},{n}]: fully_diagonalize given as {form} differs from the list form")
     return V[:3], True
+
+
+def run_fdmasks(case):
+    from pymablock import block_diagonalize
+    from pymablock.series import one, zero
+
+    cfg, values = base_values(case["base"], 1, case["seed"])
+    herm = cfg["hermitian"]
+    sizes = cfg["sizes"]
+    nb = len(sizes)
+    blk = sizes.index(3)
+    pairs = [(0, 1), (0, 2), (1, 2)]
+    m_ = case["mask"]
+    mask = np.zeros((3, 3), dtype=bool)
+    if m_ < 7:  # symmetric: every non-empty subset of the three pairs
+        for q_, (a, b_) in enumerate(pairs):
+            if (m_ + 1) >> q_ & 1:
+                mask[a, b_] = mask[b_, a] = True
+    else:  # one-sided (non-Hermitian mode only): a single directed element, then two
+        directed = [(0, 1), (1, 0), (0, 2), (2, 1)]
+        sel = [[0], [1], [2], [3], [0, 2], [1, 3]][m_ - 7]
+        for q_ in sel:
+            mask[directed[q_]] = True
+    h0 = np.diag(np.array(BASES[case["base"]]["E"], dtype=float))
+    H = {(0,): h0, **{o: np.array(m, dtype=complex) for o, m in values.items()}}
+    kw = dict(subspace_indices=block_of(sizes), hermitian=herm)
+    form = case["form"]
+    if form == "int":
+        given = mask.astype(int)
+    elif form == "int8":
+        given = mask.astype(np.int8)
+    elif form == "uint8":
+        given = mask.astype(np.uint8)
+    elif form == "int64-fortran":
+        given = np.asfortranarray(mask.astype(np.int64))
+    elif form == "bool-fortran":
+        given = np.asfortranarray(mask)
+    elif form == "int-readonly":
+        given = mask.astype(int)
+        given.setflags(write=False)
+    elif form == "int-strided":
+        big = np.zeros((6, 6), dtype=int)
+        big[::2, ::2] = mask
+        given = big[::2, ::2]
+    else:
+        given = mask.astype(int)
+    before = np.array(given, copy=True)
+    ref = block_diagonalize(dict(H), fully_diagonalize={blk: mask.copy()}, **kw)
+    try:
+        alt = block_diagonalize(dict(H), fully_diagonalize=(given if form == "bare" else {blk: given}), **kw)
+    except (ValueError, TypeError, NotImplementedError):
+        return [], False  # refusing a mask container is acceptable; answering differently is not
+    V = []
+    nontrivial = False
+    for name, sr, sa in zip(("H_tilde", "U", "U_inv"), ref, alt):
+        for n in (0, 1, 2, 3):
+            for i in range(nb):
+                for j in range(nb):
+                    x, y = sr[i, j, n], sa[i, j, n]
+                    if x is zero or y is zero or x is one or y is one:
+                        if x is not y and not (x is zero and np.abs(np.asarray(y.toarray() if hasattr(y, "toarray") else y)).max(initial=0) < 1e-12) \
+                                and not (y is zero and np.abs(np.asarray(x.toarray() if hasattr(x, "toarray") else x)).max(initial=0) < 1e-12):
+                            V.append(f"{name}[{i},{j},{n}]: elimination mask given as {form} differs from the bool mask (sentinel)")
+                        continue
+                    dx = np.asarray(x.toarray() if hasattr(x, "toarray") else x)
+                    dy = np.asarray(y.toarray() if hasattr(y, "toarray") else y)
+                    if name == "U" and n >= 2 and i == j == blk and np.abs(dx).max(initial=0) > 1e-9:
+                        nontrivial = True
+                    if dx.shape != dy.shape or np.abs(dx - dy).max(initial=0) > 1e-9 * max(1.0, np.abs(dx).max(initial=0)):
+                        V.append(f"{name}[{i},{j},{n}]: elimination mask given as {form} differs from the bool mask")
+    if not np.array_equal(before, given) or before.dtype != given.dtype:
+        V.append(f"the elimination mask given as {form} was modified by block_diagonalize")
+    return V[:3], nontrivial
 
 
 def run_interleaved(case):
